@@ -276,6 +276,121 @@ func (w *c15World) probe(t, d int, outcome int) {
 	}
 }
 
+// ---- reload hand-over (dialer.go RestoreHealthSnapshot / MarkAliveForReloadFallback,
+// dialer_group.go CaptureReloadSelectionFallback / EnsureReloadSelectionFloor)
+
+// c15SnapString renders the six collections of a health snapshot in type order as
+// `alive;movingAverage;l1,l2,...` (latencies oldest first); ok=false when the TCP-DNS alias slots
+// disagree with the TCP slots (never the case for snapshots taken from a dialer).
+func c15SnapString(snap dialer.DialerHealthSnapshot) (string, bool) {
+	parts := make([]string, 6)
+	for t := 0; t < 6; t++ {
+		c := snap.Collections[t+2]
+		ls := c.Latencies.Latencies
+		if len(ls) >= 10 && c.Latencies.Head > 0 && c.Latencies.Head < len(ls) {
+			ls = append(append([]time.Duration{}, ls[c.Latencies.Head:]...), ls[:c.Latencies.Head]...)
+		}
+		xs := make([]string, len(ls))
+		for i, l := range ls {
+			xs[i] = strconv.FormatInt(int64(l), 10)
+		}
+		parts[t] = fmt.Sprintf("%s;%d;%s", c15B(c.Alive), int64(c.MovingAverage), strings.Join(xs, ","))
+	}
+	ok := snap.Collections[0].Alive == snap.Collections[4].Alive && snap.Collections[1].Alive == snap.Collections[5].Alive
+	return strings.Join(parts, "|"), ok
+}
+
+func (w *c15World) restore(d int, snap dialer.DialerHealthSnapshot, kind string) {
+	if w.g == nil {
+		return
+	}
+	str, ok := c15SnapString(snap)
+	if !ok {
+		return
+	}
+	out := VRecover(func() string {
+		w.dialers[d].RestoreHealthSnapshot(snap)
+		w.lastBest = map[int]string{}
+		return w.takeCbs() + " " + w.groupDump()
+	})
+	w.st.Emit(fmt.Sprintf("restore %d %s", d, str), out)
+	w.syncPens(d)
+	w.stats.Inc("reload.restore." + kind)
+}
+
+func (w *c15World) donorSnapshot(r *VRand, d int) (dialer.DialerHealthSnapshot, string) {
+	switch x := r.Intn(10); {
+	case x < 5 && w.n > 1:
+		j := r.Intn(w.n)
+		return w.dialers[j].ReloadHealthSnapshot(), "from_member"
+	case x < 7:
+		return w.foreign.ReloadHealthSnapshot(), "from_foreign"
+	case x < 8:
+		return c15NewDialer(w.opt, "fresh").ReloadHealthSnapshot(), "fresh_all_alive_no_latency"
+	case x < 9:
+		return dialer.DialerHealthSnapshot{}, "zero_all_dead_no_latency"
+	default:
+		return w.dialers[d].ReloadHealthSnapshot(), "own"
+	}
+}
+
+func (w *c15World) capture() ReloadSelectionFallback {
+	var fb ReloadSelectionFallback
+	out := VRecover(func() string {
+		fb = w.g.CaptureReloadSelectionFallback()
+		xs := make([]string, 6)
+		for t := 0; t < 6; t++ {
+			if p := fb[w.types[t].Index()]; p != nil {
+				xs[t] = strconv.Itoa(w.dialerIdx(p))
+			} else {
+				xs[t] = "-"
+			}
+		}
+		return "fb=" + strings.Join(xs, ",")
+	})
+	w.st.Emit("capture", out)
+	w.stats.Inc("reload.capture")
+	return fb
+}
+
+func (w *c15World) floor(fb ReloadSelectionFallback) {
+	xs := make([]string, 6)
+	for t := 0; t < 6; t++ {
+		if p := fb[w.types[t].Index()]; p != nil {
+			xs[t] = strconv.Itoa(w.dialerIdx(p))
+		} else {
+			xs[t] = "-"
+		}
+	}
+	out := VRecover(func() string {
+		w.g.EnsureReloadSelectionFloor(fb)
+		w.lastBest = map[int]string{}
+		return w.takeCbs() + " " + w.groupDump()
+	})
+	w.st.Emit("floor "+strings.Join(xs, ","), out)
+	for d := 0; d < w.n; d++ {
+		w.syncPens(d)
+	}
+	w.stats.Inc("reload.floor")
+}
+
+// the production order of ControlPlane.InheritDialerHealthFrom for one group:
+// capture, restore every matched member, ensure the floor
+func (w *c15World) reloadHandover(r *VRand) {
+	if w.g == nil || w.n == 0 {
+		return
+	}
+	fb := w.capture()
+	for d := 0; d < w.n; d++ {
+		if r.Chance(0.8) {
+			snap, kind := w.donorSnapshot(r, d)
+			w.restore(d, snap, kind)
+		}
+	}
+	w.floor(fb)
+	w.stats.Inc("reload.handover")
+}
+
 func (w *c15World) setLevel(t, d, k int) {
 	dialer.VerifC15SetBackoffLevel(w.dialers[d], w.types[t], k)
 	w.syncPens(d)
@@ -581,6 +696,20 @@ func (w *c15World) event(r *VRand, tol int64, fam int) {
 		w.setLevel(t, d, r.Intn(7))
 		return
 	}
+	if w.g != nil {
+		switch x := r.Intn(1000); {
+		case x < 25:
+			snap, kind := w.donorSnapshot(r, d)
+			w.restore(d, snap, kind)
+			return
+		case x < 37:
+			w.reloadHandover(r)
+			return
+		case x < 45:
+			w.floor(ReloadSelectionFallback{})
+			return
+		}
+	}
 	switch x := r.Intn(100); {
 	case x < 4:
 		// burst: fill and wrap the 10-slot latency ring of one (domain, node)
@@ -767,6 +896,20 @@ func TestVerifC15(t *testing.T) {
 		w.sel(false, false, false, 0, true, -1, 0)
 		w.sample(2, 0, 101)
 		w.sel(false, false, false, 0, true, -1, 0)
+		_ = w.g.Close()
+	}
+	// reload witness (design_notes/C15.md, reload): node 0 measured 100 is the choice, node 1 measured
+	// 10 and then dead; node 1 is restored from an emptier snapshot (alive, no latencies): it rejoins
+	// with sorting latency 0 while the set keeps its recorded latency 10 (the `RestoreOk` side condition
+	// of tolerance_invariant_survives_reload_partial is violated).
+	{
+		w := c15NewWorld(st3, stats, 2, false, false)
+		w.makeGroup(30, consts.DialerSelectionPolicy_MinLastLatency, 0, []int64{0, 0})
+		w.sample(2, 0, 100)
+		w.sample(2, 1, 10)
+		w.fail(2, 1, true, true)
+		w.sample(2, 0, 100)
+		w.restore(1, c15NewDialer(w.opt, "fresh").ReloadHealthSnapshot(), "witness")
 		_ = w.g.Close()
 	}
 	st3.Close()
